@@ -131,8 +131,10 @@ RidgeUp(c, d, lamUp) ==
              [] OTHER -> DZero
   IN DShift(b, d.k - c.eexp)                 \* * 10^-eexp * 10^k : exact
 
-\* lower bound of cond(A + dI) on the unpadded block: lambda_max / (lambda_min + d)
-CondLo(c, d, lamUp) == DMulDown(LamMax(c), DInvDown(DAddDown(AMin(c), RidgeUp(c, d, lamUp))))
+\* lower bound of cond(A + dI) on the unpadded block: max(1, lambda_max / (lambda_min + d)); without
+\* the max the bound falls below 1 when the ridge dominates the matrix (scale 1e-9, absolute ridge
+\* 1e-6) and the slack below the rounding of the identity itself - no condition number is < 1
+CondLo(c, d, lamUp) == DMax(DOne, DMulDown(LamMax(c), DInvDown(DAddDown(AMin(c), RidgeUp(c, d, lamUp)))))
 
 \* rounding slack  SlackC * n * p * u * cond(A + dI),  u = 2^-53 >= 1.11022302e-16.
 \* SlackC: over 47 000 lattice cases the measured excess of the residual over the figure stays
